@@ -317,3 +317,39 @@ func VxC14_LinearEdges() {
 		}
 	}
 }
+
+// VxC14_LogSpecialValues: zero, negative, NaN, infinite, tiny and huge values are counted exactly
+// once by LogHist too (concrete x through the real bin(); counters symbolic), and non-positive
+// values - which lie below every bin - go to the under-flow counter.
+// C14: "Every Add to a LinearHist or LogHist increments exactly one counter ... in the under count when it is below the first bin".
+//
+//vx:solver z3-new
+//vx:bound x in {0, -0, -1, -1e300, -Inf, NaN, +Inf, 1e-300, 0.75, 1, 3, 1e300}; base 2, 1 bin per power, 4 bins; counters symbolic
+func VxC14_LogSpecialValues() {
+	xs := []float64{0, math.Copysign(0, -1), -1, -1e300, math.Inf(-1), math.NaN(), math.Inf(1), 1e-300, 0.75, 1, 3, 1e300}
+	k := vx.Choose("x", 0, len(xs)-1)
+	x := xs[k]
+	h := NewLogHist(2, 1, 16)
+	h.low, h.high = vx.Uint("low"), vx.Uint("high")
+	nb := len(h.bins)
+	old := make([]uint, nb)
+	for i := range h.bins {
+		h.bins[i] = vx.Uint(vxNameN("bin", i))
+		old[i] = h.bins[i]
+	}
+	low0, high0 := h.low, h.high
+	h.Add(x)
+	inc := vx.IteInt(h.low == low0+1, 1, 0) + vx.IteInt(h.high == high0+1, 1, 0)
+	same := vx.IteInt(h.low == low0, 1, 0) + vx.IteInt(h.high == high0, 1, 0)
+	for i := range h.bins {
+		inc += vx.IteInt(h.bins[i] == old[i]+1, 1, 0)
+		same += vx.IteInt(h.bins[i] == old[i], 1, 0)
+	}
+	vx.Assert(inc == 1 && same == nb+1, "LogHist.Add increments exactly one counter (special values)")
+	if x <= 0 || (x > 0 && x < 1) {
+		vx.Assert(h.low == low0+1, "values below the first bin (all values below 1, zero and negatives included) count as under-flow")
+	}
+	if x >= 16 && !math.IsInf(x, 1) {
+		vx.Assert(h.high == high0+1, "values at or above the last edge count as over-flow")
+	}
+}
